@@ -1,7 +1,7 @@
 (* C16 -- converter output always belongs to the stream's current data.
    Model: theories/Tags.v (state machine of the manager's service loop); proofs: theories/TagsC16.v. *)
 From Coq Require Import List NArith Bool.
-From Pk Require Import Tags TagsC16.
+From Pk Require Import Tags TagsC16 TagsC06 TagsC09 TagsC09T TagsC09A TagsC16C.
 Import ListNotations.
 Open Scope N_scope.
 
@@ -25,6 +25,37 @@ Theorem C16_current_when_no_job :
   let st := run k l (init cs) in
   jconv st = None -> forall c i v, cache st c i = Some v -> v = ver st i.
 Proof. intros k l cs K H st J. apply cinv_quiet; [apply cinv_run; [exact K|exact H|apply cinv_init]|exact J]. Qed.
+
+(* ---- completeness (theories/TagsC16C.v; uses the C09 invariant Tinv and termination).
+   In every reachable state every existing or future stream id that a live tag with an attached converter matches is
+   cached, queued for that converter, or in the set of a converter job whose body has not run yet. *)
+Theorem C16_matching_is_cached_queued_or_in_flight :
+  forall cs l, NoDup cs -> valid_history (init cs) l ->
+  let st := run repaired l (init cs) in
+  forall n t c id, In (n, t) (tags st) -> t_live t = true -> memN c (t_conv t) = true -> mem id (t_m t) = true ->
+  cache st c id <> None \/ mem id (toconv st c) = true \/ inflight st c id.
+Proof. intros cs l ND V st n t c id I L C M. exact (proj1 (qinv_reachable cs l ND V) n t c id I L C M). Qed.
+
+(* "eventually has output": from every reachable state every schedule of the background jobs is finite (C09) and
+   where it stops every stream matching a tag with an attached converter has cached output of its CURRENT version *)
+Theorem C16_complete_and_current_at_rest :
+  forall cs l st', NoDup cs -> valid_history (init cs) l ->
+  jsteps (run repaired l (init cs)) st' -> (forall st'', ~ jstep st' st'') ->
+  forall n t c id, In (n, t) (tags st') -> t_live t = true -> memN c (t_conv t) = true -> memN c (convs st') = true ->
+  mem id (t_m t) = true -> cache st' c id = Some (ver st' id).
+Proof. exact reachable_complete. Qed.
+
+(* "detaching stops further runs", the part that holds in the code: detachConverterFromTag removes the tag's own
+   streams from the converter's queue (a stream stays queued only if another tag with the converter matches it).
+   Not a theorem (and not true of the Go code, see its TODO): output that stays cached for another tag's sake is
+   re-queued when its stream changes even if the only matching tag was the detached one; the harness checks that a
+   converter attached to no tag has nothing queued whenever no converter job is in flight. *)
+Theorem C16_detach_dequeues_partial :
+  forall st n c t, tget n (tags st) = Some t ->
+  forall id, mem id (toconv (detach st n c) c) = true ->
+  mem id (toconv st c) = true /\
+  (mem id (t_m t) = false \/ exists k b, In (k, b) (tags (detach st n c)) /\ k <> n /\ tag_has_conv c b = true /\ mem id (t_m b) = true).
+Proof. exact detach_dequeues. Qed.
 
 (* The unrepaired code (switches on) violated it: both historical witnesses end with no job in flight,
    nothing queued and a cached output of an old version (reproduced on the Go code before d1a158c:
